@@ -60,8 +60,13 @@ class SequentialParameterBuilder(Iterator[ParameterConfig]):
     self._parameters = ParameterDict()
     self._traverse_order = traverse_order
     self._gen = self._coroutine(search_space)
-    self._next = next(self._gen)
     self._stop_iteration = None
+    try:
+      self._next = next(self._gen)
+    except StopIteration as e:
+      # Empty search space: there is nothing to iterate over.
+      self._next = None
+      self._stop_iteration = e
 
   def _coroutine(
       self, search_space: SearchSpace
